@@ -599,8 +599,12 @@ impl Scen {
             let year = BigInt::from(31_536_000u64);
             let mut allow = BigInt::from(0);
             if dt > 0 && Some(bi) == touched && tl > BigInt::from(0) && ta > BigInt::from(0) {
-                let base_max = big(10 * ONE); // every accepted curve is ≤ 1000 %
-                allow += &tl + big(fx(pre.total_liability_shares)) + (&base_max * BigInt::from(dt)) / &year + 1;
+                // every accepted curve is ≤ 1000 % (the utilisation is clamped to [0, 1] inside both curves), but the LENDING rate is
+                // base x utilisation with the utilisation as it is: a purge in a sunset bank can leave more debt than deposits, and
+                // the per-period lending rate of the theorem's allowance is then up to 1000 % x utilisation
+                let ur = (&tl * &one) / &ta + 1;
+                let lending_max = big(10 * ONE) * (if ur > one { ur } else { one.clone() }) / &one + 1;
+                allow += &tl + big(fx(pre.total_liability_shares)) + (&lending_max * BigInt::from(dt)) / &year + 1;
             }
             match act {
                 // theorems decrease_step / borrow_fee_step / repay_all_step / withdraw_all_step
